@@ -216,7 +216,7 @@ struct Bed
 		return res;
 	}
 
-	// ---- index menu: unique (id) (id,c) (a,b);  multi (b) (c) (b,c)
+	// ---- index menu: unique (id) (id,c) (a,b);  multi (b) (c) (b,c) (a,b)
 	bool addUnique(int mask, long& dupRow)
 	{
 		try {
@@ -234,6 +234,7 @@ struct Bed
 		case 4: table.AddMultiHashIndex(b); break;
 		case 8: table.AddMultiHashIndex(c); break;
 		case 12: table.AddMultiHashIndex(c, b); break;
+		case 6: table.AddMultiHashIndex(a, b); break;
 		default: bad("unknown multi index"); }
 	}
 	// FindByUniqueHash through equalities; -1 none, -2 no such index
@@ -271,7 +272,7 @@ struct Bed
 	bool findMulti(int mask, const R4& v, int form, std::vector<long>& res)
 	{
 		const Table& ct = table;
-		int i2 = int(v.v[2]); std::string s = strOf(v.v[3]);
+		int i1 = int(v.v[1]), i2 = int(v.v[2]); std::string s = strOf(v.v[3]);
 		try {
 			Table::ConstRowHashBounds bounds;
 			switch (mask) {
@@ -281,6 +282,8 @@ struct Bed
 				: ct.FindByMultiHash(momo::DataEquality<>().And(c, s), ct.GetMultiHashIndex(c)); break;
 			case 12: bounds = (form == 0) ? ct.FindByMultiHash(momo::DataMultiHashIndex::empty, CI::MakeEquality(b, i2), CI::MakeEquality(c, s))
 				: ct.FindByMultiHash(momo::DataEquality<>().And(c, s).And(b, i2), ct.GetMultiHashIndex(b, c)); break;
+			case 6: bounds = (form == 0) ? ct.FindByMultiHash(momo::DataMultiHashIndex::empty, CI::MakeEquality(b, i2), CI::MakeEquality(a, i1))
+				: ct.FindByMultiHash(momo::DataEquality<>().And(a, i1).And(b, i2), ct.GetMultiHashIndex(a, b)); break;
 			default: return false; }
 			res.clear();
 			size_t n = bounds.GetCount(); size_t k = 0;
